@@ -94,6 +94,7 @@ func init() {
 		other.Frame.PC++
 		x.work = append(x.work, other)
 		st.Trace = append(st.Trace, "once:run")
+		st.Events = append(st.Events, "once-run")
 		fv, ok := a[1].(FuncV)
 		if !ok || fv.Fn == nil {
 			x.havocReachable(st, a)
